@@ -1333,6 +1333,47 @@ func execDeleg(f []string) vlib.Res {
 
 var delegSeen = map[string]bool{}
 
+// ---------------------------------------------------------------- pickFallbackResponse (what lookup hands back when nobody won)
+
+// fallback run <response-error rcodes|-> <number of invalid referrals> <fatal kinds|->     fatal: w a n (work limit, attempt limit, network)
+func execFallback(f []string) vlib.Res {
+	var resps, cfgs []*dns.Msg
+	for i, rc := range splitList(f[2], ",") {
+		m := new(dns.Msg)
+		m.Rcode = vlib.Atoi(rc)
+		m.Id = uint16(1000 + i)
+		resps = append(resps, m)
+	}
+	for i := 0; i < vlib.Atoi(f[3]); i++ {
+		m := new(dns.Msg)
+		m.Id = uint16(2000 + i)
+		m.Ns = []dns.RR{&dns.NS{Hdr: dns.RR_Header{Name: "victim.test.", Rrtype: dns.TypeNS, Class: dns.ClassINET, Ttl: 60}, Ns: "ns.evil.test."}}
+		cfgs = append(cfgs, m)
+	}
+	fatal := ""
+	if f[4] != "-" {
+		fatal = f[4]
+	}
+	m, e := resolver.VerifC07PickFallback(resps, cfgs, fatal)
+	impl := "err " + e
+	or := "ok"
+	if e == "" {
+		switch {
+		case m == nil:
+			impl = "nil"
+		case m.Id >= 2000:
+			impl = fmt.Sprintf("config %d", m.Id-2000)
+			// an invalid referral is the last resort among messages: only when no authority sent a proper negative reply
+			if len(resps) > 0 {
+				or = fail("fallback/invalid-referral-preferred-to-a-response", "responses=%s", f[2])
+			}
+		default:
+			impl = fmt.Sprintf("resp %d", m.Id-1000)
+		}
+	}
+	return vlib.Res{Impl: impl, Oracle: or, Tags: "nt,fallback"}
+}
+
 // ---------------------------------------------------------------- the alias chase (Cache.additionalAnswer)
 
 type chRR struct {
